@@ -6,11 +6,60 @@ import (
 	"fmt"
 	"go/types"
 	"math/big"
+	"strings"
 )
 
 // bigTextSym renders a symbolic fixed-point number whose integer part has at most 4 digits and whose scale is <= 2
 // (quarters). Text('f',-1) and String() (= 'g',10) agree on such values: plain decimal without exponent.
+// numtext is the decimal text of a symbolic fixed-point number, kept unexpanded: comparing two such texts is
+// comparing the numbers (distinct quarter-integers have distinct shortest decimal texts). Any operation that needs
+// the characters expands it into (partly symbolic) bytes, forking on the digit count.
+type numtext struct {
+	i      *interpreter
+	f      bigF
+	format uint8
+	prec   int
+}
+
+func (n numtext) expand() value { return n.i.bigTextDigits(n.f, n.format, n.prec) }
+
 func (i *interpreter) bigTextSym(x bigF, format uint8, prec int) value {
+	if x.num == nil || x.scale > 2 || !((format == 'f' && prec == -1) || (format == 'g' && prec == 10) || (format == 'g' && prec == -1)) {
+		i.abort("unsupported", fmt.Sprintf("decimal text (%c,%d) of a symbolic number outside the small fixed-point model", format, prec))
+	}
+	return numtext{i, x, format, prec}
+}
+
+// numtextEq compares a lazy number text with another string value.
+func (i *interpreter) numtextEq(a numtext, y value) value {
+	switch b := y.(type) {
+	case numtext:
+		// 'g' with 10 digits switches to exponent form for large values; both sides use the same rule only when
+		// the formats agree
+		if (a.format == 'g' && a.prec == 10) != (b.format == 'g' && b.prec == 10) {
+			return i.strEq(a.expand(), b.expand())
+		}
+		xa, ya := cmpOperands(a.f, b.f)
+		return mkBoolVal(mkEq(xa, ya))
+	case string:
+		r, ok := new(big.Rat).SetString(b)
+		if !ok || len(b) == 0 || b[0] == '+' || b[0] == '.' || strings.ContainsAny(b, "eE/_") {
+			return false
+		}
+		// canonical plain decimal?
+		canon := new(big.Float).SetPrec(512).SetRat(r).Text('f', -1)
+		if canon != b {
+			return false
+		}
+		if a.format == 'g' && a.prec == 10 && (len(strings.TrimLeft(strings.Replace(b, ".", "", 1), "-0")) > 10) {
+			return i.strEq(a.expand(), b)
+		}
+		return mkBoolVal(mkEq(a.f.sv, mkReal(r)))
+	}
+	return i.strEq(a.expand(), y)
+}
+
+func (i *interpreter) bigTextDigits(x bigF, format uint8, prec int) value {
 	if x.num == nil || x.scale > 2 || !((format == 'f' && prec == -1) || (format == 'g' && prec == 10) || (format == 'g' && prec == -1)) {
 		i.abort("unsupported", fmt.Sprintf("decimal text (%c,%d) of a symbolic number outside the small fixed-point model", format, prec))
 	}
